@@ -86,6 +86,9 @@ class Recorder:
             rt = asyncoro.runtime
             rec.emit('task', ctx=rec.ctx(), tid=tid, haspc=bool(haspc), level=rt._pc_level,
                      cpc=limbs(w.pc[0]) if haspc else [0, 0, 0], cd=w.pc[1] if haspc else 0)
+            pid = rec.world.current
+            # completion of the coroutine itself, observed independently of mpyc's own _reconcile callback
+            t.add_done_callback(lambda _t, tid=tid, pid=pid: rec.emit('taskdone', p=pid, tid=tid))
             return t
         self._patch(asyncoro, 'Task', Task)
 
